@@ -364,7 +364,10 @@ func (e *engine) CompileModule(_ context.Context, module *wasm.Module, listeners
 	}
 
 	funcs := make([]compiledFunction, len(module.FunctionSection))
-	irCompiler, err := newCompiler(e.enabledFeatures, callFrameStackSize, module, ensureTermination)
+	// The module was already validated against the features of the Runtime compiling it. These can
+	// differ from e.enabledFeatures when this engine is shared via a CompilationCache, so do not
+	// reject multi-value block types here based on the features of the first Runtime.
+	irCompiler, err := newCompiler(e.enabledFeatures|api.CoreFeatureMultiValue, callFrameStackSize, module, ensureTermination)
 	if err != nil {
 		return err
 	}
